@@ -16,8 +16,8 @@ GetS(f, c) == IF c \in DOMAIN f THEN f[c] ELSE <<>>
 Put(f, c, v) == [x \in DOMAIN f \cup {c} |-> IF x = c THEN v ELSE f[x]]
 E0 == [x \in {} |-> {}]
 
-S0 == [done |-> E0, pending |-> E0, applied |-> E0, marked |-> {}, stack |-> <<>>, i |-> 0, t |-> 0, tops |-> <<>>,
-       children |-> E0, np |-> 0, kindof |-> <<>>, active |-> FALSE, failed |-> FALSE]
+S0 == [done |-> E0, pending |-> E0, failedm |-> E0, applied |-> E0, marked |-> {}, stack |-> <<>>, i |-> 0, t |-> 0, tops |-> <<>>,
+       children |-> E0, np |-> 0, kindof |-> <<>>, active |-> FALSE, failed |-> FALSE, strict |-> TRUE]
 
 (* advance over exhausted top lists: the pass position the next top-level dispatch belongs to *)
 RECURSIVE Adv(_)
@@ -30,16 +30,18 @@ Checked(s, a) == \E k \in 1..Len(a) : s.kindof[a[k]] = "check" /\ k > LastRewrit
 Step(s0, e) ==
   IF e.ev = "call_begin" THEN
      [s |-> [s0 EXCEPT !.stack = <<>>, !.i = 1, !.t = 1, !.tops = e.tops, !.children = e.children, !.np = e.np, !.kindof = e.kindof,
-                       !.active = TRUE, !.failed = FALSE],
+                       !.active = TRUE, !.failed = FALSE, !.strict = e.strict],
       bad |-> IF s0.active THEN "nested_call" ELSE ""]
   ELSE IF e.ev = "call_end" THEN
      LET s == Adv(s0)
          stale == \E c \in DOMAIN s.pending : s.pending[c] # {}
      IN [s |-> [s EXCEPT !.active = FALSE, !.stack = <<>>, !.failed = e.raised],
-         bad |-> IF e.raised THEN ""
+         bad |-> IF e.raised THEN (IF stale THEN "stale_pending_after_failure" ELSE "")
                  ELSE IF s.stack # <<>> THEN "returned_with_open_frames"
                  ELSE IF ~(s.i = s.np /\ s.t > Len(s.tops)) THEN "returned_before_all_passes"
                  ELSE IF stale THEN "stale_pending_after_return" ELSE ""]
+         \* after a failed call, too, nothing may stay pending (C08)
+         
   ELSE
      LET s    == Adv(s0)
          top  == IF s.stack = <<>> THEN [m |-> "", todo |-> <<>>, applying |-> FALSE] ELSE s.stack[Len(s.stack)]
@@ -68,8 +70,19 @@ Step(s0, e) ==
                    bad |-> IF ~pos_ok THEN "pass_position" ELSE IF ~free /\ target # e.mod THEN "traversal_order"
                            ELSE IF e.mod \in Get(s.done, c) THEN "entered_done_module"
                            ELSE IF e.mod \in Get(s.pending, c) THEN "entered_pending_module"
+                           ELSE IF e.mod \in Get(s.failedm, c) THEN "entered_failed_module"
                            ELSE IF e.ndone # Cardinality(Get(s.done, c)) THEN "done_count"
                            ELSE IF Range(e.pending) # p1 THEN "pending_set" ELSE ""]
+          [] e.ev = "refail" ->        \* a module whose elaboration failed earlier is visited again: the original failure is raised again
+               [s |-> consumed,
+                bad |-> IF ~free /\ target # e.mod THEN "traversal_order"
+                        ELSE IF e.mod \notin Get(s.failedm, c) THEN "refail_of_module_that_did_not_fail" ELSE ""]
+          [] e.ev = "fail" ->          \* the exception passes through the top frame: it leaves pending, is remembered as failed, and is popped
+               [s |-> [s EXCEPT !.pending = Put(s.pending, c, Get(s.pending, c) \ {e.mod}),
+                                !.failedm = Put(s.failedm, c, Get(s.failedm, c) \cup {e.mod}),
+                                !.stack = IF s.stack = <<>> THEN <<>> ELSE SubSeq(s.stack, 1, Len(s.stack) - 1)],
+                bad |-> IF s.stack = <<>> \/ top.m # e.mod THEN "fail_not_top_frame"
+                        ELSE IF Range(e.pending) # Get(s.pending, c) \ {e.mod} THEN "pending_set_after_failure" ELSE ""]
           [] e.ev = "apply_begin" ->
                [s |-> IF s.stack = <<>> THEN s ELSE [s EXCEPT !.stack[Len(s.stack)].applying = TRUE],
                 bad |-> IF s.stack = <<>> \/ top.m # e.mod THEN "apply_not_top_frame"
@@ -87,10 +100,11 @@ Step(s0, e) ==
                                    !.stack = IF s.stack = <<>> THEN <<>> ELSE SubSeq(s.stack, 1, Len(s.stack) - 1)]
                IN [s |-> s1,
                    bad |-> IF s.stack = <<>> \/ top.m # e.mod THEN "exit_not_top_frame"
-                           ELSE IF a1[Len(a1)] # Len(a1) THEN "pass_skipped_or_repeated"       \* AppliedInOrder
-                           ELSE IF ismark /\ Len(a1) # s.np THEN "marked_incomplete"
-                           ELSE IF ismark /\ ~Checked(s, a1) THEN "not_checked_after_flattening"
-                           ELSE IF \E k \in DOMAIN GetS(s.children, e.mod) : Len(GetS(s.applied, s.children[e.mod][k])) < Len(a1) THEN "parent_before_child"
+                           \* (strict: one fixed pass list throughout the trace; traces that switch elaborators skip the position monitors)
+                           ELSE IF s.strict /\ a1[Len(a1)] # Len(a1) THEN "pass_skipped_or_repeated"       \* AppliedInOrder
+                           ELSE IF s.strict /\ ismark /\ Len(a1) # s.np THEN "marked_incomplete"
+                           ELSE IF s.strict /\ ismark /\ ~Checked(s, a1) THEN "not_checked_after_flattening"
+                           ELSE IF \E k \in DOMAIN GetS(s.children, e.mod) : s.strict /\ Len(GetS(s.applied, s.children[e.mod][k])) < Len(a1) THEN "parent_before_child"
                            ELSE ""]
           [] OTHER -> [s |-> s, bad |-> "unknown_event"]
 
